@@ -111,6 +111,20 @@ class Resolver:
                         return (n.module, a.name)
         return None
 
+    def dataclass_fields(self, rel, cname):
+        for n in self.mod(rel).body:
+            if isinstance(n, ast.ClassDef) and n.name == cname:
+                return [st.target.id for st in n.body if isinstance(st, ast.AnnAssign) and isinstance(st.target, ast.Name)]
+        return None
+
+    def method_params(self, rel, cname, meth):
+        for n in self.mod(rel).body:
+            if isinstance(n, ast.ClassDef) and n.name == cname:
+                for st in n.body:
+                    if isinstance(st, ast.FunctionDef) and st.name == meth:
+                        return [a.arg for a in st.args.args[1:]]
+        return None
+
     def constant(self, rel, name):
         d = self.find(rel, name)
         if d is None:
@@ -223,8 +237,61 @@ def pexpr(cx, node, want=None):
     return coerce(cx, coq, kind, want, node), (want or kind)
 
 
+def callee_params(cx, node):
+    """parameter names of the callee of a Call, from ITS definition in the current source (None if unknown)"""
+    f = node.func
+    ch = attr_chain(f)
+    if isinstance(f, ast.Name):
+        if f.id == 'ProofThunk':
+            return ['expr', 'conc']
+        if f.id == 'Proved':
+            return ['conclusion']
+        if RESOLVER is not None:
+            fields = RESOLVER.dataclass_fields('pattern.py', f.id)
+            if fields:
+                return fields
+        return None
+    if isinstance(f, ast.Call):
+        return None
+    hp = helper_of(cx, ch)
+    if hp is not None:
+        return hp[1]
+    meth = f.attr if isinstance(f, ast.Attribute) else None
+    if meth in OPS and RESOLVER is not None:
+        return RESOLVER.method_params('interpreter.py', 'Interpreter', meth)
+    if meth and meth.startswith('execute_') and RESOLVER is not None:
+        return RESOLVER.method_params('proof.py', 'ProofExp', meth)
+    if meth in ('pattern',):
+        return ['p']
+    if meth in ('instantiate',):
+        return ['delta']
+    if meth in ('evar_is_free',):
+        return ['name']
+    return None
+
+
+def positional(cx, node):
+    """a call with keyword arguments is the call with the values bound positionally to the callee's parameters"""
+    if not isinstance(node, ast.Call) or not node.keywords:
+        return node
+    names = callee_params(cx, node)
+    if names is None or any(k.arg is None for k in node.keywords):
+        fail(cx.where, node, 'keyword arguments of a callee whose parameters are unknown')
+    args = list(node.args)
+    kw = {k.arg: k.value for k in node.keywords}
+    for nm in names[len(args):]:
+        if nm in kw:
+            args.append(kw.pop(nm))
+        else:
+            break
+    if kw:
+        fail(cx.where, node, f'keyword argument(s) {sorted(kw)} do not continue the positional arguments')
+    return ast.copy_location(ast.Call(func=node.func, args=args, keywords=[]), node)
+
+
 def pexpr0(cx, node):
     w = cx.where
+    node = positional(cx, node)
     if isinstance(node, ast.Constant):
         if isinstance(node.value, bool):
             return ('true' if node.value else 'false'), 'bool'
@@ -271,9 +338,15 @@ def pexpr0(cx, node):
             return f'(negb {c})', 'bool'
         fail(w, node, f'`not` of a {k}')
     if isinstance(node, ast.BoolOp):
-        parts = [pexpr(cx, x, 'bool')[0] for x in node.values]
+        vals = [pexpr0(cx, x) for x in node.values]
+        if not {k for _, k in vals} <= {'bool', 'memtest'}:
+            fail(w, node, 'boolean operator over non-booleans')
         op = ' && ' if isinstance(node.op, ast.And) else ' || '
-        return '(' + op.join(parts) + ')', 'bool'
+        return '(' + op.join(c for c, _ in vals) + ')', ('memtest' if any(k == 'memtest' for _, k in vals) else 'bool')
+    if isinstance(node, ast.Compare) and len(node.ops) == 1 and isinstance(node.ops[0], ast.NotIn):
+        pos = ast.copy_location(ast.Compare(left=node.left, ops=[ast.In()], comparators=node.comparators), node)
+        c, k = pexpr0(cx, pos)
+        return f'(negb {c})', k                          # `a not in b`  is  `not (a in b)`
     if isinstance(node, ast.Compare) and len(node.ops) == 1:
         a, ka = pexpr0(cx, node.left)
         op = node.ops[0]
@@ -425,6 +498,7 @@ def recv_kind(cx, f):
 def is_effectful(cx, node):
     if not isinstance(node, ast.Call):
         return False
+    node = positional(cx, node)
     f = node.func
     ch = attr_chain(f)
     if isinstance(f, ast.Name) and f.id in cx.env and cx.env[f.id][0] == 'thunk':
@@ -462,6 +536,7 @@ def bindM_k(m, k):
 def mcall(cx, node, k):
     """translate an effectful call; k(coq_value, kind) gives the rest"""
     w = cx.where
+    node = positional(cx, node)
     f = node.func
     ch = attr_chain(f)
 
@@ -607,10 +682,12 @@ def block(cx, stmts, fallthrough):
 
     if isinstance(s, ast.Expr) and isinstance(s.value, ast.Constant) and (isinstance(s.value.value, str) or s.value.value is Ellipsis):
         return tail()                                                 # docstring / `...`
-    if isinstance(s, ast.Pass) and getattr(cx, '_finish', None) is not None and not rest:
+    if isinstance(s, ast.Pass) and s is getattr(cx, '_marker', None):
         fin = cx._finish
-        cx._finish = None
+        cx._finish = cx._marker = None
         return fin()
+    if isinstance(s, ast.Pass):
+        return tail()                                                 # `pass` = `...` = nothing
     if isinstance(s, ast.Return):
         if s.value is None:
             return RET(cx, 'tt')
@@ -631,6 +708,8 @@ def block(cx, stmts, fallthrough):
     if isinstance(s, ast.AnnAssign) and isinstance(s.target, ast.Name) and s.value is not None:
         s = ast.copy_location(ast.Assign(targets=[s.target], value=s.value), s)
     if isinstance(s, ast.Assign) and len(s.targets) == 1:
+        if isinstance(s.value, ast.Call):
+            s = ast.copy_location(ast.Assign(targets=s.targets, value=positional(cx, s.value)), s)
         tgt = s.targets[0]
         hch = attr_chain(s.value.func) if isinstance(s.value, ast.Call) else None
         hp = helper_of(cx, hch)
@@ -672,6 +751,7 @@ def block(cx, stmts, fallthrough):
             return f'let {v(name)} := {c} in {tail()}'
         fail(w, s, 'assignment target outside the subset')
     if isinstance(s, ast.Expr) and isinstance(s.value, ast.Call):
+        s = ast.copy_location(ast.Expr(value=positional(cx, s.value)), s)
         ch = attr_chain(s.value.func)
         if ch == ['self', 'check_interpreting']:
             return tail()                                             # verified print-only at class level
@@ -794,7 +874,7 @@ def inline_unit_helper(cx, stmt, fn, pnames, tail):
 def block_with_return(cx, stmts, finish):
     """translate stmts, then continue with finish() (used for an inlined helper body)"""
     marker = ast.Pass()
-    cx._finish = finish
+    cx._finish, cx._marker = finish, marker
     return block(cx, list(stmts) + [marker], None)
 
 
@@ -978,6 +1058,7 @@ def closure(cx, node):
 
 def ret_expr(cx, node):
     w = cx.where
+    node = positional(cx, node)
     if isinstance(node, ast.IfExp):
         # `return A if T else B`  is  `if T: return A` / `else: return B`
         syn = ast.If(test=node.test, body=[ast.Return(value=node.body)], orelse=[ast.Return(value=node.orelse)])
@@ -1153,6 +1234,12 @@ def gen_interp_pattern(repo, consts, out):
     if params(where, fn) != [('p', 'pat')]:
         fail(where, fn, 'parameters')
     fb = body_of(fn)
+    if len(fb) == 1 and isinstance(fb[0], ast.Match) and fb[0].cases:
+        last = fb[0].cases[-1]
+        if (isinstance(last.pattern, ast.MatchAs) and last.pattern.pattern is None and last.pattern.name is None and last.guard is None
+                and len(last.body) == 1 and isinstance(last.body[0], ast.Raise)):
+            # `case _: raise ..`  is the `raise` after the match
+            fb = [ast.copy_location(ast.Match(subject=fb[0].subject, cases=fb[0].cases[:-1]), fb[0]), last.body[0]]
     if not (len(fb) == 2 and isinstance(fb[0], ast.Match) and isinstance(fb[1], ast.Raise)):
         fail(where, fn, 'body is not `match p: ...` followed by `raise`')
     mt = fb[0]
